@@ -18,7 +18,7 @@ import time
 
 VERIF = os.path.dirname(os.path.dirname(os.path.abspath(__file__)))
 REPO = os.environ.get("PASFMT_REPO", "/repo")
-CACHE = os.path.join(VERIF, ".cache")
+CACHE = os.environ.get("VERIF_CACHE") or os.path.join(VERIF, ".cache")     # (the self-test gives each of its parallel workers a cache of its own)
 DRIVER = os.path.join(VERIF, "facts-driver", "target", "release", "pasfmt-facts")
 
 CRATES = "pasfmt_core,pasfmt_orchestrator,pasfmt"
